@@ -1,11 +1,62 @@
 import Nstd.Buffer.PropsTr
 /-
-  Property C08, tie by translation (continued): both `append` overloads.  See PropsTr.lean.
+  Property C08, tie by translation (continued): both `append` overloads.  See PropsTr.lean.  The generated run is computed once
+  (`tr_once`), one lemma per ownership state so that every declaration stays within the default heartbeat budget.
 -/
 namespace Nstd.Buffer
 open C
 
-set_option maxHeartbeats 2000000 in
+theorem tr_appendBuf_own_grow (v w : Nat) (id : Nat) (m : List Byte) (s e cap : Nat) (L : Ledger)
+    (hb : BInv v ⟨.own id m, s, e, cap⟩) (hl : LiveIn ⟨.own id m, s, e, cap⟩ L) (hbd : Bounded L) (data : List Byte) (lo : Bool) (ob : Ptr) (oc : Nat) :
+    e - s + data.length > cap →
+    (Gen.appendBuf v (objOf ⟨.own id m, s, e, cap⟩) w (argObj lo data ob oc) (heapOf ⟨.own id m, s, e, cap⟩ L data)).map out =
+      (Buf.append ⟨.own id m, s, e, cap⟩ data (capOf (Gen.appendBuf v (objOf ⟨.own id m, s, e, cap⟩) w (argObj lo data ob oc) (heapOf ⟨.own id m, s, e, cap⟩ L data))) L).map outB := by
+  own_setup hb hl hbd
+  generalize hG : Gen.appendBuf _ _ _ _ _ = g
+  intro h1
+  have h2 : e - s < e - s + data.length := by omega
+  tr_once [Buf.append, Buf.resize, argObj]
+theorem tr_appendBuf_own_fits (v w : Nat) (id : Nat) (m : List Byte) (s e cap : Nat) (L : Ledger)
+    (hb : BInv v ⟨.own id m, s, e, cap⟩) (hl : LiveIn ⟨.own id m, s, e, cap⟩ L) (hbd : Bounded L) (data : List Byte) (lo : Bool) (ob : Ptr) (oc : Nat) :
+    ¬ e - s + data.length > cap →
+    (Gen.appendBuf v (objOf ⟨.own id m, s, e, cap⟩) w (argObj lo data ob oc) (heapOf ⟨.own id m, s, e, cap⟩ L data)).map out =
+      (Buf.append ⟨.own id m, s, e, cap⟩ data (capOf (Gen.appendBuf v (objOf ⟨.own id m, s, e, cap⟩) w (argObj lo data ob oc) (heapOf ⟨.own id m, s, e, cap⟩ L data))) L).map outB := by
+  own_setup hb hl hbd
+  generalize hG : Gen.appendBuf _ _ _ _ _ = g
+  intro h1
+  have hx : data.length ≤ s + (e - s + data.length) := by omega
+  by_cases h3 : s + (e - s + data.length) ≤ cap
+  · tr_once [Buf.append, Buf.resize, argObj]
+  · tr_once [Buf.append, Buf.resize, argObj]
+theorem tr_appendBuf_att (v w : Nat) (m : List Byte) (s e cap : Nat) (L : Ledger)
+    (hb : BInv v ⟨.att m, s, e, cap⟩) (hl : LiveIn ⟨.att m, s, e, cap⟩ L) (hbd : Bounded L) (data : List Byte) (lo : Bool) (ob : Ptr) (oc : Nat) :
+    (Gen.appendBuf v (objOf ⟨.att m, s, e, cap⟩) w (argObj lo data ob oc) (heapOf ⟨.att m, s, e, cap⟩ L data)).map out =
+      (Buf.append ⟨.att m, s, e, cap⟩ data (capOf (Gen.appendBuf v (objOf ⟨.att m, s, e, cap⟩) w (argObj lo data ob oc) (heapOf ⟨.att m, s, e, cap⟩ L data))) L).map outB := by
+  simp only [BInv] at hb
+  obtain ⟨rfl, hse, hem⟩ := hb
+  have hsm : s ≤ m.length := by omega
+  generalize hG : Gen.appendBuf _ _ _ _ _ = g
+  by_cases hd : data = []
+  · subst hd
+    by_cases h1 : e - s > 0
+    · tr_once [Buf.append, Buf.resize, argObj]
+    · tr_once [Buf.append, Buf.resize, argObj]
+  · have hpos : data.length > 0 := List.length_pos_iff.2 hd
+    have h1 : e - s + data.length > 0 := by omega
+    have h2 : e - s < e - s + data.length := by omega
+    tr_once [Buf.append, Buf.resize, argObj]
+theorem tr_appendBuf_dflt (v w : Nat) (c s e cap : Nat) (L : Ledger)
+    (hb : BInv v ⟨.dflt c, s, e, cap⟩) (hl : LiveIn ⟨.dflt c, s, e, cap⟩ L) (hbd : Bounded L) (data : List Byte) (lo : Bool) (ob : Ptr) (oc : Nat) :
+    (Gen.appendBuf v (objOf ⟨.dflt c, s, e, cap⟩) w (argObj lo data ob oc) (heapOf ⟨.dflt c, s, e, cap⟩ L data)).map out =
+      (Buf.append ⟨.dflt c, s, e, cap⟩ data (capOf (Gen.appendBuf v (objOf ⟨.dflt c, s, e, cap⟩) w (argObj lo data ob oc) (heapOf ⟨.dflt c, s, e, cap⟩ L data))) L).map outB := by
+  simp only [BInv] at hb
+  obtain ⟨rfl, rfl, rfl, rfl⟩ := hb
+  generalize hG : Gen.appendBuf _ _ _ _ _ = g
+  by_cases h1 : data.length > 0
+  · tr_once [Buf.append, Buf.resize, argObj]
+  · have h4 : data = [] := List.eq_nil_of_length_eq_zero (by omega)
+    subst h4
+    tr_once [Buf.append, Buf.resize, argObj]
 /-- `append(const Buffer& data)`, `data` another object with exposed bytes `data` -/
 theorem tr_appendBuf (v w : Nat) (b : Buf) (hb : BInv v b) (L : Ledger) (hl : LiveIn b L) (hbd : Bounded L)
     (data : List Byte) (lo : Bool) (ob : Ptr) (oc : Nat) :
@@ -14,69 +65,75 @@ theorem tr_appendBuf (v w : Nat) (b : Buf) (hb : BInv v b) (L : Ledger) (hl : Li
   obtain ⟨st, s, e, cap⟩ := b
   cases st with
   | own id m =>
-    own_setup hb hl hbd
     by_cases h1 : e - s + data.length > cap
-    · by_cases h2 : e - s < e - s + data.length
-      · tr_simp [Buf.append, Buf.resize, argObj]
-      · have h3 : data.length = 0 := by omega
-        exfalso; omega
-    · have hx : data.length ≤ s + (e - s + data.length) := by omega
-      by_cases h3 : s + (e - s + data.length) ≤ cap <;> tr_simp [Buf.append, Buf.resize, argObj]
-  | att m =>
-    simp only [BInv] at hb
-    obtain ⟨rfl, hse, hem⟩ := hb
-    have hsm : s ≤ m.length := by omega
-    by_cases hd : data = []
-    · subst hd
-      by_cases h1 : e - s > 0 <;> tr_simp [Buf.append, Buf.resize, argObj]
-    · have hpos : data.length > 0 := List.length_pos_iff.2 hd
-      have h1 : e - s + data.length > 0 := by omega
-      have h2 : e - s < e - s + data.length := by omega
-      tr_simp [Buf.append, Buf.resize, argObj]
-  | dflt c =>
-    simp only [BInv] at hb
-    obtain ⟨rfl, rfl, rfl, rfl⟩ := hb
-    by_cases h1 : data.length > 0
-    · tr_simp [Buf.append, Buf.resize, argObj]
-    · have h4 : data = [] := List.eq_nil_of_length_eq_zero (by omega)
-      subst h4
-      tr_simp [Buf.append, Buf.resize, argObj]
+    · exact tr_appendBuf_own_grow v w id m s e cap L hb hl hbd data lo ob oc h1
+    · exact tr_appendBuf_own_fits v w id m s e cap L hb hl hbd data lo ob oc h1
+  | att m => exact tr_appendBuf_att v w m s e cap L hb hl hbd data lo ob oc
+  | dflt c => exact tr_appendBuf_dflt v w c s e cap L hb hl hbd data lo ob oc
 
-set_option maxHeartbeats 2000000 in
+theorem tr_append_own_grow (v w : Nat) (id : Nat) (m : List Byte) (s e cap : Nat) (L : Ledger)
+    (hb : BInv v ⟨.own id m, s, e, cap⟩) (hl : LiveIn ⟨.own id m, s, e, cap⟩ L) (hbd : Bounded L) (data : List Byte) (lo : Bool) :
+    e - s + data.length > cap →
+    (Gen.append v w (objOf ⟨.own id m, s, e, cap⟩) (argPtr lo) data.length (heapOf ⟨.own id m, s, e, cap⟩ L data)).map out =
+      (Buf.append ⟨.own id m, s, e, cap⟩ data (capOf (Gen.append v w (objOf ⟨.own id m, s, e, cap⟩) (argPtr lo) data.length (heapOf ⟨.own id m, s, e, cap⟩ L data))) L).map outB := by
+  own_setup hb hl hbd
+  generalize hG : Gen.append _ _ _ _ _ _ = g
+  intro h1
+  have h2 : e - s < e - s + data.length := by omega
+  cases lo <;> tr_once [Buf.append, Buf.resize, argPtr]
+theorem tr_append_own_fits (v w : Nat) (id : Nat) (m : List Byte) (s e cap : Nat) (L : Ledger)
+    (hb : BInv v ⟨.own id m, s, e, cap⟩) (hl : LiveIn ⟨.own id m, s, e, cap⟩ L) (hbd : Bounded L) (data : List Byte) (lo : Bool) :
+    ¬ e - s + data.length > cap →
+    (Gen.append v w (objOf ⟨.own id m, s, e, cap⟩) (argPtr lo) data.length (heapOf ⟨.own id m, s, e, cap⟩ L data)).map out =
+      (Buf.append ⟨.own id m, s, e, cap⟩ data (capOf (Gen.append v w (objOf ⟨.own id m, s, e, cap⟩) (argPtr lo) data.length (heapOf ⟨.own id m, s, e, cap⟩ L data))) L).map outB := by
+  own_setup hb hl hbd
+  generalize hG : Gen.append _ _ _ _ _ _ = g
+  intro h1
+  have hx : data.length ≤ s + (e - s + data.length) := by omega
+  by_cases h3 : s + (e - s + data.length) ≤ cap
+  · cases lo <;> tr_once [Buf.append, Buf.resize, argPtr]
+  · cases lo <;> tr_once [Buf.append, Buf.resize, argPtr]
+theorem tr_append_att (v w : Nat) (m : List Byte) (s e cap : Nat) (L : Ledger)
+    (hb : BInv v ⟨.att m, s, e, cap⟩) (hl : LiveIn ⟨.att m, s, e, cap⟩ L) (hbd : Bounded L) (data : List Byte) (lo : Bool)  :
+    (Gen.append v w (objOf ⟨.att m, s, e, cap⟩) (argPtr lo) data.length (heapOf ⟨.att m, s, e, cap⟩ L data)).map out =
+      (Buf.append ⟨.att m, s, e, cap⟩ data (capOf (Gen.append v w (objOf ⟨.att m, s, e, cap⟩) (argPtr lo) data.length (heapOf ⟨.att m, s, e, cap⟩ L data))) L).map outB := by
+  simp only [BInv] at hb
+  obtain ⟨rfl, hse, hem⟩ := hb
+  have hsm : s ≤ m.length := by omega
+  generalize hG : Gen.append _ _ _ _ _ _ = g
+  by_cases hd : data = []
+  · subst hd
+    by_cases h1 : e - s > 0
+    · cases lo <;> tr_once [Buf.append, Buf.resize, argPtr]
+    · cases lo <;> tr_once [Buf.append, Buf.resize, argPtr]
+  · have hpos : data.length > 0 := List.length_pos_iff.2 hd
+    have h1 : e - s + data.length > 0 := by omega
+    have h2 : e - s < e - s + data.length := by omega
+    cases lo <;> tr_once [Buf.append, Buf.resize, argPtr]
+theorem tr_append_dflt (v w : Nat) (c s e cap : Nat) (L : Ledger)
+    (hb : BInv v ⟨.dflt c, s, e, cap⟩) (hl : LiveIn ⟨.dflt c, s, e, cap⟩ L) (hbd : Bounded L) (data : List Byte) (lo : Bool)  :
+    (Gen.append v w (objOf ⟨.dflt c, s, e, cap⟩) (argPtr lo) data.length (heapOf ⟨.dflt c, s, e, cap⟩ L data)).map out =
+      (Buf.append ⟨.dflt c, s, e, cap⟩ data (capOf (Gen.append v w (objOf ⟨.dflt c, s, e, cap⟩) (argPtr lo) data.length (heapOf ⟨.dflt c, s, e, cap⟩ L data))) L).map outB := by
+  simp only [BInv] at hb
+  obtain ⟨rfl, rfl, rfl, rfl⟩ := hb
+  generalize hG : Gen.append _ _ _ _ _ _ = g
+  by_cases h1 : data.length > 0
+  · cases lo <;> tr_once [Buf.append, Buf.resize, argPtr]
+  · have h4 : data = [] := List.eq_nil_of_length_eq_zero (by omega)
+    subst h4
+    cases lo <;> tr_once [Buf.append, Buf.resize, argPtr]
 /-- `append(data, size)` with `data` outside the object: the copy-first test and `inside` are false, then as `append(const Buffer&)` -/
-theorem tr_append (v t : Nat) (b : Buf) (hb : BInv v b) (L : Ledger) (hl : LiveIn b L) (hbd : Bounded L)
-    (data : List Byte) (lo : Bool) :
-    (Gen.append v t (objOf b) (argPtr lo) data.length (heapOf b L data)).map out =
-      (b.append data (capOf (Gen.append v t (objOf b) (argPtr lo) data.length (heapOf b L data))) L).map outB := by
+theorem tr_append (v w : Nat) (b : Buf) (hb : BInv v b) (L : Ledger) (hl : LiveIn b L) (hbd : Bounded L)
+    (data : List Byte) (lo : Bool)  :
+    (Gen.append v w (objOf b) (argPtr lo) data.length (heapOf b L data)).map out =
+      (b.append data (capOf (Gen.append v w (objOf b) (argPtr lo) data.length (heapOf b L data))) L).map outB := by
   obtain ⟨st, s, e, cap⟩ := b
   cases st with
   | own id m =>
-    own_setup hb hl hbd
     by_cases h1 : e - s + data.length > cap
-    · by_cases h2 : e - s < e - s + data.length
-      · cases lo <;> (unfold Gen.append; simp only [objOf, argPtr, branch, band, bor, truthy, pge, ple, plt, pgt, prel, padd, bind, pure, val, Option.map, reduceCtorEq, if_false, if_true, decide_true, decide_false, Nat.not_lt_zero, Nat.le_zero_eq, Nat.one_ne_zero, Nat.zero_lt_one, Bool.false_eq_true]; tr_simp [Buf.append, Buf.resize])
-      · have h3 : data.length = 0 := by omega
-        exfalso; omega
-    · have hx : data.length ≤ s + (e - s + data.length) := by omega
-      by_cases h3 : s + (e - s + data.length) ≤ cap <;> cases lo <;> (unfold Gen.append; simp only [objOf, argPtr, branch, band, bor, truthy, pge, ple, plt, pgt, prel, padd, bind, pure, val, Option.map, reduceCtorEq, if_false, if_true, decide_true, decide_false, Nat.not_lt_zero, Nat.le_zero_eq, Nat.one_ne_zero, Nat.zero_lt_one, Bool.false_eq_true]; tr_simp [Buf.append, Buf.resize])
-  | att m =>
-    simp only [BInv] at hb
-    obtain ⟨rfl, hse, hem⟩ := hb
-    have hsm : s ≤ m.length := by omega
-    by_cases hd : data = []
-    · subst hd
-      by_cases h1 : e - s > 0 <;> cases lo <;> (unfold Gen.append; simp only [objOf, argPtr, branch, band, bor, truthy, pge, ple, plt, pgt, prel, padd, bind, pure, val, Option.map, reduceCtorEq, if_false, if_true, decide_true, decide_false, Nat.not_lt_zero, Nat.le_zero_eq, Nat.one_ne_zero, Nat.zero_lt_one, Bool.false_eq_true]; tr_simp [Buf.append, Buf.resize])
-    · have hpos : data.length > 0 := List.length_pos_iff.2 hd
-      have h1 : e - s + data.length > 0 := by omega
-      have h2 : e - s < e - s + data.length := by omega
-      cases lo <;> (unfold Gen.append; simp only [objOf, argPtr, branch, band, bor, truthy, pge, ple, plt, pgt, prel, padd, bind, pure, val, Option.map, reduceCtorEq, if_false, if_true, decide_true, decide_false, Nat.not_lt_zero, Nat.le_zero_eq, Nat.one_ne_zero, Nat.zero_lt_one, Bool.false_eq_true]; tr_simp [Buf.append, Buf.resize])
-  | dflt c =>
-    simp only [BInv] at hb
-    obtain ⟨rfl, rfl, rfl, rfl⟩ := hb
-    by_cases h1 : data.length > 0
-    · cases lo <;> (unfold Gen.append; simp only [objOf, argPtr, branch, band, bor, truthy, pge, ple, plt, pgt, prel, padd, bind, pure, val, Option.map, reduceCtorEq, if_false, if_true, decide_true, decide_false, Nat.not_lt_zero, Nat.le_zero_eq, Nat.one_ne_zero, Nat.zero_lt_one, Bool.false_eq_true]; tr_simp [Buf.append, Buf.resize])
-    · have h4 : data = [] := List.eq_nil_of_length_eq_zero (by omega)
-      subst h4
-      cases lo <;> (unfold Gen.append; simp only [objOf, argPtr, branch, band, bor, truthy, pge, ple, plt, pgt, prel, padd, bind, pure, val, Option.map, reduceCtorEq, if_false, if_true, decide_true, decide_false, Nat.not_lt_zero, Nat.le_zero_eq, Nat.one_ne_zero, Nat.zero_lt_one, Bool.false_eq_true]; tr_simp [Buf.append, Buf.resize])
+    · exact tr_append_own_grow v w id m s e cap L hb hl hbd data lo h1
+    · exact tr_append_own_fits v w id m s e cap L hb hl hbd data lo h1
+  | att m => exact tr_append_att v w m s e cap L hb hl hbd data lo
+  | dflt c => exact tr_append_dflt v w c s e cap L hb hl hbd data lo
 
 end Nstd.Buffer
